@@ -33,8 +33,10 @@ func init() {
 			"executed under the runtime pointer checker (-gcflags=all=-d=checkptr); non-trivial = helper/source pair for which a view is returned",
 		Assumptions: []string{"layouts are those of gc/amd64 (types.SizesFor), cross-checked against reflect on the machine that runs the check",
 			"checkptr alone is not sufficient (an overrun inside the allocator's size class is not reported), which is why the static invariant is the deciding one"},
-		Bound: func(string) string { return "complete in both tiers: every conversion site x field; every helper x source x form x shared property" },
-		Pre:   c08Pre,
+		Bound: func(string) string {
+			return "complete in both tiers: every conversion site x field; every helper x source x form x shared property"
+		},
+		Pre: c08Pre,
 		WorkerBinary: func(p *engine.Parent) string {
 			b := filepath.Join(p.BuildDir(), "verif-check-checkptr")
 			if _, err := os.Stat(b); err == nil {
@@ -119,14 +121,22 @@ type c08Helper struct {
 
 func c08Helpers() []c08Helper {
 	return []c08Helper{
-		{"Object", "Object", func(i ap.Item) (any, error) { return ap.ToObject(i) }, func(i ap.Item, f func(any)) error { return ap.OnObject(i, func(p *ap.Object) error { f(p); return nil }) }},
-		{"Activity", "Activity", func(i ap.Item) (any, error) { return ap.ToActivity(i) }, func(i ap.Item, f func(any)) error { return ap.OnActivity(i, func(p *ap.Activity) error { f(p); return nil }) }},
+		{"Object", "Object", func(i ap.Item) (any, error) { return ap.ToObject(i) }, func(i ap.Item, f func(any)) error {
+			return ap.OnObject(i, func(p *ap.Object) error { f(p); return nil })
+		}},
+		{"Activity", "Activity", func(i ap.Item) (any, error) { return ap.ToActivity(i) }, func(i ap.Item, f func(any)) error {
+			return ap.OnActivity(i, func(p *ap.Activity) error { f(p); return nil })
+		}},
 		{"IntransitiveActivity", "IntransitiveActivity", func(i ap.Item) (any, error) { return ap.ToIntransitiveActivity(i) }, func(i ap.Item, f func(any)) error {
 			return ap.OnIntransitiveActivity(i, func(p *ap.IntransitiveActivity) error { f(p); return nil })
 		}},
-		{"Question", "Question", func(i ap.Item) (any, error) { return ap.ToQuestion(i) }, func(i ap.Item, f func(any)) error { return ap.OnQuestion(i, func(p *ap.Question) error { f(p); return nil }) }},
+		{"Question", "Question", func(i ap.Item) (any, error) { return ap.ToQuestion(i) }, func(i ap.Item, f func(any)) error {
+			return ap.OnQuestion(i, func(p *ap.Question) error { f(p); return nil })
+		}},
 		{"Actor", "Actor", func(i ap.Item) (any, error) { return ap.ToActor(i) }, func(i ap.Item, f func(any)) error { return ap.OnActor(i, func(p *ap.Actor) error { f(p); return nil }) }},
-		{"Collection", "Collection", func(i ap.Item) (any, error) { return ap.ToCollection(i) }, func(i ap.Item, f func(any)) error { return ap.OnCollection(i, func(p *ap.Collection) error { f(p); return nil }) }},
+		{"Collection", "Collection", func(i ap.Item) (any, error) { return ap.ToCollection(i) }, func(i ap.Item, f func(any)) error {
+			return ap.OnCollection(i, func(p *ap.Collection) error { f(p); return nil })
+		}},
 		{"CollectionPage", "CollectionPage", func(i ap.Item) (any, error) { return ap.ToCollectionPage(i) }, func(i ap.Item, f func(any)) error {
 			return ap.OnCollectionPage(i, func(p *ap.CollectionPage) error { f(p); return nil })
 		}},
@@ -137,11 +147,15 @@ func c08Helpers() []c08Helper {
 			return ap.OnOrderedCollectionPage(i, func(p *ap.OrderedCollectionPage) error { f(p); return nil })
 		}},
 		{"Place", "Place", func(i ap.Item) (any, error) { return ap.ToPlace(i) }, func(i ap.Item, f func(any)) error { return ap.OnPlace(i, func(p *ap.Place) error { f(p); return nil }) }},
-		{"Profile", "Profile", func(i ap.Item) (any, error) { return ap.ToProfile(i) }, func(i ap.Item, f func(any)) error { return ap.OnProfile(i, func(p *ap.Profile) error { f(p); return nil }) }},
+		{"Profile", "Profile", func(i ap.Item) (any, error) { return ap.ToProfile(i) }, func(i ap.Item, f func(any)) error {
+			return ap.OnProfile(i, func(p *ap.Profile) error { f(p); return nil })
+		}},
 		{"Relationship", "Relationship", func(i ap.Item) (any, error) { return ap.ToRelationship(i) }, func(i ap.Item, f func(any)) error {
 			return ap.OnRelationship(i, func(p *ap.Relationship) error { f(p); return nil })
 		}},
-		{"Tombstone", "Tombstone", func(i ap.Item) (any, error) { return ap.ToTombstone(i) }, func(i ap.Item, f func(any)) error { return ap.OnTombstone(i, func(p *ap.Tombstone) error { f(p); return nil }) }},
+		{"Tombstone", "Tombstone", func(i ap.Item) (any, error) { return ap.ToTombstone(i) }, func(i ap.Item, f func(any)) error {
+			return ap.OnTombstone(i, func(p *ap.Tombstone) error { f(p); return nil })
+		}},
 		{"Link", "Link", func(i ap.Item) (any, error) { return ap.ToLink(i) }, func(i ap.Item, f func(any)) error { return ap.OnLink(i, func(p *ap.Link) error { f(p); return nil }) }},
 	}
 }
